@@ -35,18 +35,21 @@ class Buf:
 
 
 class Tiny:
-    def __init__(self, env, calls=None):
+    def __init__(self, env, calls=None, default_call=None):
         self.env = dict(env)  # text -> value
         self.calls = calls or {}  # text of call -> value
+        self.default_call = default_call  # (function text, evaluated args) -> value, for calls not listed in `calls`
         self.trace = []  # (text of call, evaluated args) for calls seen in expression statements / values
 
     def ev(self, e):
         if isinstance(e, ast.Constant):
             if e.value in (b"", ""):
                 return Buf(0, 0)
-            if isinstance(e.value, (int, bool)) or e.value is None:
+            if isinstance(e.value, (int, bool, str)) or e.value is None:
                 return e.value
             raise AnalysisError(f"tiny: constant {e.value!r}")
+        if isinstance(e, (ast.List, ast.Tuple)):
+            return [self.ev(x) for x in e.elts]
         if isinstance(e, (ast.Name, ast.Attribute)):
             t = norm.text(e)
             if t in self.env:
@@ -56,6 +59,8 @@ class Tiny:
             if norm.text(e) in self.env:
                 return self.env[norm.text(e)]
             b = self.ev(e.value)
+            if isinstance(b, (list, tuple)) and not isinstance(e.slice, ast.Slice):
+                return b[self.ev(e.slice)]
             if isinstance(b, Buf) and isinstance(e.slice, ast.Slice) and e.slice.step is None:
                 lo = self.ev(e.slice.lower) if e.slice.lower is not None else None
                 hi = self.ev(e.slice.upper) if e.slice.upper is not None else None
@@ -101,6 +106,11 @@ class Tiny:
                 return (min if f == "min" else max)(self.ev(a) for a in e.args)
             if f in ("bytes", "bytearray", "memoryview") and len(e.args) == 1:
                 return self.ev(e.args[0])
+            if isinstance(e.func, ast.Attribute) and e.func.attr == "append" and len(e.args) == 1:
+                tgt = self.ev(e.func.value)
+                if isinstance(tgt, list):
+                    tgt.append(self.ev(e.args[0]))
+                    return None
             if t in self.calls:
                 return self.calls[t]
             if f in self.calls:
@@ -108,6 +118,10 @@ class Tiny:
                 self.trace.append((f, args))
                 r = self.calls[f]
                 return r(*args) if callable(r) else r
+            if self.default_call is not None:
+                args = [self.ev(a) for a in e.args]
+                self.trace.append((f, args))
+                return self.default_call(f, args)
             raise AnalysisError(f"tiny: call {t[:60]}")
         raise AnalysisError(f"tiny: expression {ast.unparse(e)[:60]}")
 
@@ -134,6 +148,17 @@ class Tiny:
                 r = self.run(st.body if self.truth(self.ev(st.test)) else st.orelse, stop)
                 if r[0] != "fall":
                     return r
+            elif isinstance(st, ast.While):
+                n = 0
+                while self.truth(self.ev(st.test)):
+                    n += 1
+                    if n > 64:
+                        raise AnalysisError("tiny: loop does not terminate within 64 iterations on a small cell")
+                    r = self.run(st.body, stop)
+                    if r[0] != "fall":
+                        return r
+            elif isinstance(st, ast.Raise):
+                return ("raise", ast.unparse(st.exc)[:60] if st.exc is not None else "")
             elif isinstance(st, ast.Return):
                 return ("return", self.ev(st.value) if st.value is not None else None)
             elif isinstance(st, ast.Expr):
